@@ -55,9 +55,10 @@ func sv(s string) val { return val{t: 's', s: s} }
 // ---- leaves
 
 type leaf struct {
-	src  [3]string // spelling under normal, tight and wide spacing
-	v    val
-	kind string // lit | var | attr | index | list
+	src   [3]string // spelling under normal, tight and wide spacing
+	v     val
+	kind  string // lit | var | attr | index | list | call | litindex | hashindex | filtered
+	comma bool   // the spelling contains a comma at nesting depth > 0 (inside ( ), [ ] or { })
 }
 
 func lf(kind string, v val, src ...string) leaf {
@@ -73,55 +74,200 @@ func lf(kind string, v val, src ...string) leaf {
 	return l
 }
 
+// ---- leaves that contain commas: calls with 2-4 arguments, indexed list / hash literals with two
+// entries, a call as filter argument, one level of nesting. Spelling (three spacings) and value are
+// both computed from the structure; the value rules are the obvious ones: max / min of integers,
+// pick(i, x0, x1, ...) = x_i (a function the harness registers), [x0, x1][i] = x_i,
+// {'k': x, 'j': y}['k'] = x, null|default(x) = x.
+
+func seq3(open, close string, parts [][3]string) [3]string {
+	var out [3]string
+	for sp := 0; sp < 3; sp++ {
+		sep := [3]string{", ", ",", "  ,  "}[sp]
+		pad := [3]string{"", "", "  "}[sp]
+		var ps []string
+		for _, p := range parts {
+			ps = append(ps, p[sp])
+		}
+		out[sp] = open + pad + strings.Join(ps, sep) + pad + close
+	}
+	return out
+}
+
+func srcs(ls []leaf) [][3]string {
+	var out [][3]string
+	for _, l := range ls {
+		out = append(out, l.src)
+	}
+	return out
+}
+
+func cat3(a, b [3]string) [3]string { return [3]string{a[0] + b[0], a[1] + b[1], a[2] + b[2]} }
+
+func ilit(i int64) leaf { return lf("lit", iv(i), fmt.Sprint(i)) }
+
+// call: fn(arg, arg, ...) for fn = max | min | pick
+func call(fn string, args ...leaf) leaf {
+	if len(args) < 2 {
+		panic("call: a comma leaf needs two arguments")
+	}
+	l := leaf{kind: "call", comma: true, src: cat3([3]string{fn, fn, fn}, seq3("(", ")", srcs(args)))}
+	switch fn {
+	case "max", "min":
+		for i, a := range args {
+			if a.v.t != 'i' {
+				panic("call: " + fn + " of a non-integer")
+			}
+			if i == 0 || (fn == "max" && a.v.i > l.v.i) || (fn == "min" && a.v.i < l.v.i) {
+				l.v = a.v
+			}
+		}
+	case "pick":
+		i := args[0].v.i
+		if args[0].v.t != 'i' || i < 0 || int(i)+1 >= len(args) {
+			panic("call: pick index")
+		}
+		l.v = args[i+1].v
+	default:
+		panic("call: " + fn)
+	}
+	return l
+}
+
+// elemAt: [x0, x1][i]
+func elemAt(i int, elems ...leaf) leaf {
+	if len(elems) < 2 {
+		panic("elemAt")
+	}
+	return leaf{kind: "litindex", comma: true, v: elems[i].v,
+		src: cat3(seq3("[", "]", srcs(elems)), seq3("[", "]", [][3]string{ilit(int64(i)).src}))}
+}
+
+// hashAt: {'k0': x0, 'k1': x1}['ki']
+func hashAt(key string, k0 string, x0 leaf, k1 string, x1 leaf) leaf {
+	colon := [3]string{": ", ":", "  :  "}
+	q := func(k string) [3]string { return [3]string{"'" + k + "'", "'" + k + "'", "'" + k + "'"} }
+	l := leaf{kind: "hashindex", comma: true}
+	l.src = cat3(seq3("{", "}", [][3]string{cat3(cat3(q(k0), colon), x0.src), cat3(cat3(q(k1), colon), x1.src)}),
+		seq3("[", "]", [][3]string{q(key)}))
+	switch key {
+	case k0:
+		l.v = x0.v
+	case k1:
+		l.v = x1.v
+	default:
+		panic("hashAt")
+	}
+	return l
+}
+
+// deflt: null|default(x) — a postfix filter on the leaf, so never the operand of a unary operator
+// (that is the open form -a|abs); used for strings only
+func deflt(x leaf) leaf {
+	return leaf{kind: "filtered", comma: x.comma, v: x.v,
+		src: cat3([3]string{"null|default", "null|default", "null | default"}, seq3("(", ")", [][3]string{x.src}))}
+}
+
+// listOf: [x0, x1] with integer-valued elements, a list-typed leaf
+func listOf(elems ...leaf) leaf {
+	l := leaf{kind: "list", v: val{t: 'l'}, src: seq3("[", "]", srcs(elems))}
+	for _, e := range elems {
+		if e.v.t != 'i' {
+			panic("listOf")
+		}
+		l.v.l = append(l.v.l, e.v.i)
+		l.comma = l.comma || e.comma
+	}
+	return l
+}
+
 // Leaf pools per type. A tree with leaf ordinals 0..n-1 (in source order) under rotation r uses
 // pool[(ordinal+r) mod len(pool)] for each leaf of that type.
-var pools = map[byte][]leaf{
-	'i': {
-		lf("lit", iv(2), "2"),
-		lf("var", iv(3), "a"),
-		lf("lit", iv(12), "12"),
-		lf("var", iv(7), "b"),
-		lf("attr", iv(5), "o.n"),
-		lf("index", iv(30), "xs[1]", "xs[1]", "xs[  1  ]"),
-	},
-	'b': {
-		lf("var", bv(true), "t"),
-		lf("var", bv(false), "f"),
-		lf("lit", bv(true), "true"),
-		lf("attr", bv(false), "o.f"),
-		lf("index", bv(true), "bs[0]", "bs[0]", "bs[  0  ]"),
-		lf("lit", bv(false), "false"),
-	},
-	's': {
-		lf("lit", sv("a"), "'a'"),
-		lf("var", sv("ab"), "s"),
-		lf("lit", sv("b"), "'b'"),
-		lf("attr", sv("ba"), "o.s"),
-		lf("lit", sv("ab"), "\"ab\""),
-		lf("index", sv("abab"), "ss[1]", "ss[1]", "ss[  1  ]"),
-	},
-	// numeric strings: strings that hold an integer in its canonical decimal spelling. Neighbours in
-	// the pool (the operands of `N0 < N1` under the six rotations) are ordered differently as numbers
-	// and as texts in four of the six pairs: 10/9, -2/-1, 30/5, 5/10 (9/-2 and -1/30 agree), and
-	// n[4] = "30" meets xs[1] = 30, n[5] = "5" meets o.n = 5 in `N0 == I1` / `I0 == N1`.
-	'n': {
-		lf("lit", sv("10"), "'10'"),
-		lf("var", sv("9"), "n"),
-		lf("lit", sv("-2"), "'-2'"),
-		lf("attr", sv("-1"), "o.m"),
-		lf("lit", sv("30"), "\"30\""),
-		lf("index", sv("5"), "ns[1]", "ns[1]", "ns[  1  ]"),
-	},
-	'l': {
-		lf("var", val{t: 'l', l: []int64{2, 30, 5}}, "xs"),
-		lf("list", val{t: 'l', l: []int64{3, 7}}, "[3, 7]", "[3,7]", "[  3  ,  7  ]"),
-		lf("attr", val{t: 'l', l: []int64{12, 7}}, "o.xs"),
-		lf("list", val{t: 'l', l: []int64{3, 12}}, "[a, 12]", "[a,12]", "[  a  ,  12  ]"),
-	},
-	'r': { // regular expressions, only ever the right operand of `matches`
-		lf("lit", sv("/^a/"), "'/^a/'"),
-		lf("lit", sv("/b$/"), "'/b$/'"),
-	},
+//
+// The int, bool and string pools have 12 slots: slots 0-5 are the plain leaves (literal, variable,
+// attribute, item access), slot i+6 is a comma-containing leaf with the value of slot i. So rotation
+// r+6 gives every leaf the value it has under rotation r (and the analysis of r carries over), with
+// the other kind of spelling; a tree with several leaves of one type mixes both kinds when its
+// ordinals straddle slot 5/6 or 11/0. The list pool repeats its four values three times, the middle
+// third with commas inside parentheses.
+var pools = buildPools()
+
+func buildPools() map[byte][]leaf {
+	i2, ia, i12, ib := lf("lit", iv(2), "2"), lf("var", iv(3), "a"), lf("lit", iv(12), "12"), lf("var", iv(7), "b")
+	ion, ixs1 := lf("attr", iv(5), "o.n"), lf("index", iv(30), "xs[1]", "xs[1]", "xs[  1  ]")
+	bt, bf, btrue, bof := lf("var", bv(true), "t"), lf("var", bv(false), "f"), lf("lit", bv(true), "true"), lf("attr", bv(false), "o.f")
+	bbs0, bfalse := lf("index", bv(true), "bs[0]", "bs[0]", "bs[  0  ]"), lf("lit", bv(false), "false")
+	sa, ss, sb, sos := lf("lit", sv("a"), "'a'"), lf("var", sv("ab"), "s"), lf("lit", sv("b"), "'b'"), lf("attr", sv("ba"), "o.s")
+	sab, sss1 := lf("lit", sv("ab"), "\"ab\""), lf("index", sv("abab"), "ss[1]", "ss[1]", "ss[  1  ]")
+	lxs := lf("var", val{t: 'l', l: []int64{2, 30, 5}}, "xs")
+	l37 := lf("list", val{t: 'l', l: []int64{3, 7}}, "[3, 7]", "[3,7]", "[  3  ,  7  ]")
+	loxs := lf("attr", val{t: 'l', l: []int64{12, 7}}, "o.xs")
+	la12 := lf("list", val{t: 'l', l: []int64{3, 12}}, "[a, 12]", "[a,12]", "[  a  ,  12  ]")
+	comma := lf("lit", sv(","), "','")
+
+	p := map[byte][]leaf{
+		'i': {i2, ia, i12, ib, ion, ixs1,
+			call("min", ib, ia, i2),               // 2: three arguments
+			call("max", i2, ia),                   // 3: two arguments
+			elemAt(1, ia, i12),                    // 12: [a, 12][1]
+			hashAt("k", "k", ib, "j", i2),         // 7: {'k': b, 'j': 2}['k']
+			call("max", ia, call("min", ion, ib)), // 5: nested one level
+			call("pick", ilit(1), ia, ixs1),       // 30: the harness function, an item access among the arguments
+		},
+		'b': {bt, bf, btrue, bof, bbs0, bfalse,
+			call("pick", ilit(0), bt, bf),         // true
+			elemAt(1, bt, bf),                     // false: [t, f][1]
+			hashAt("k", "k", btrue, "j", bf),      // true
+			call("pick", ilit(1), bt, bof),        // false
+			elemAt(1, bf, bbs0),                   // true: [f, bs[0]][1]
+			call("pick", ilit(2), ia, bt, bfalse), // false: four arguments
+		},
+		's': {sa, ss, sb, sos, sab, sss1,
+			elemAt(1, sb, sa),                           // 'a': ['b', 'a'][1]
+			deflt(call("pick", ilit(1), ia, ss)),        // "ab": a call with commas as filter argument
+			hashAt("k", "j", sa, "k", sb),               // 'b': the second entry of {'j': 'a', 'k': 'b'}
+			call("pick", ilit(2), sa, ss, sos),          // "ba": four arguments
+			call("pick", ilit(0), sab, comma),           // "ab": a comma inside a string literal among the arguments
+			call("pick", ilit(1), listOf(ia, i2), sss1), // "abab": a list literal among the arguments
+		},
+		// numeric strings: strings that hold an integer in its canonical decimal spelling. Neighbours in
+		// the pool (the operands of `N0 < N1` under the six rotations) are ordered differently as numbers
+		// and as texts in four of the six pairs: 10/9, -2/-1, 30/5, 5/10 (9/-2 and -1/30 agree), and
+		// n[4] = "30" meets xs[1] = 30, n[5] = "5" meets o.n = 5 in `N0 == I1` / `I0 == N1`.
+		'n': {
+			lf("lit", sv("10"), "'10'"),
+			lf("var", sv("9"), "n"),
+			lf("lit", sv("-2"), "'-2'"),
+			lf("attr", sv("-1"), "o.m"),
+			lf("lit", sv("30"), "\"30\""),
+			lf("index", sv("5"), "ns[1]", "ns[1]", "ns[  1  ]"),
+		},
+		'l': {lxs, l37, loxs, la12,
+			call("pick", ilit(1), ia, lxs),   // xs
+			listOf(call("max", i2, ia), ib),  // [3, 7] as [max(2, a), b]
+			call("pick", ilit(0), loxs, lxs), // o.xs
+			listOf(ia, call("max", i2, i12)), // [3, 12] as [a, max(2, 12)]
+			lxs, l37, loxs, la12,
+		},
+		'r': { // regular expressions, only ever the right operand of `matches`
+			lf("lit", sv("/^a/"), "'/^a/'"),
+			lf("lit", sv("/b$/"), "'/b$/'"),
+		},
+	}
+	// the comma leaves are twins: same value as the plain leaf half (a third) of the pool away
+	for _, t := range []byte{'i', 'b', 's'} {
+		for i := 0; i < 6; i++ {
+			if len(p[t]) != 12 || !p[t][i].v.eq(p[t][i+6].v) || p[t][i].comma || !p[t][i+6].comma {
+				panic(fmt.Sprintf("pool %c: slot %d and its comma twin disagree", t, i))
+			}
+		}
+	}
+	for i := 0; i < 4; i++ {
+		if !p['l'][i].v.eq(p['l'][i+4].v) || !p['l'][i+4].comma {
+			panic("list pool: twin")
+		}
+	}
+	return p
 }
 
 const nRot = 12 // lcm of the pool sizes
